@@ -21,6 +21,7 @@ type Clause struct {
 type LoopSpec struct {
 	Invs      []*Clause
 	Decreases *Clause
+	Body      []*Clause // per-iteration postconditions: old() is the state at the loop header
 }
 
 type CallClause struct {
@@ -47,8 +48,30 @@ type Contract struct {
 	Bounded   int
 	External  bool
 	Emits     []*EmitSpec
+	Sets      []*SetSpec
 	File      string
 	Notes     []string
+}
+
+// SetSpec: ghost map update performed by the contract at the call: sets $name(key) := value
+type SetSpec struct {
+	Name  string
+	Key   *SExpr
+	Value *SExpr
+}
+
+type GhostDecl struct {
+	Name    string
+	KeyType string
+	ValType string
+}
+
+// ReadonlyGlobal: the variable is treated as a constant; a syntactic obligation checks that only the
+// package initializer stores to it, and its initial value must establish Inv.
+type ReadonlyGlobal struct {
+	Name  string // short pkg + "." + var
+	Inv   *Clause
+	Where string
 }
 
 type EmitSpec struct {
@@ -63,6 +86,7 @@ type SpecFunc struct {
 	Body   *SExpr
 	Src    string
 	Where  string
+	Pkg    string // short path of the package whose contract file defines it ("" for theory files)
 	Opaque bool // emitted as an uninterpreted function with a trigger-guarded definitional axiom
 }
 
@@ -76,7 +100,7 @@ type Axiom struct {
 var clauseKeywords = map[string]bool{
 	"func": true, "ext": true, "spec": true, "abstract": true, "axiom": true, "prop": true,
 	"requires": true, "ensures": true, "assigns": true, "loop": true, "call": true, "pure": true,
-	"may_panic": true, "nosafety": true, "trusted": true, "bounded": true, "fresh": true, "emits": true, "note": true,
+	"may_panic": true, "nosafety": true, "trusted": true, "bounded": true, "fresh": true, "emits": true, "note": true, "sets": true, "ghost": true, "readonly": true,
 }
 
 var labelRe = regexp.MustCompile(`^@([A-Za-z0-9_\-./]+)\s+`)
@@ -191,10 +215,41 @@ func (e *Engine) readContractFile(path, pkgKey string) error {
 			if err != nil {
 				return err
 			}
-			if old, dup := e.specs[sf.Name]; dup && old.Src != sf.Src {
+			sf.Pkg = pkgKey
+			if old, dup := e.specs[sf.Name]; dup && (old.Src != sf.Src || (old.Pkg != sf.Pkg && false)) {
 				return fmt.Errorf("%s: spec function %s redefined differently (first at %s)", where, sf.Name, old.Where)
 			}
 			e.specs[sf.Name] = sf
+			cur = nil
+		case "readonly":
+			// readonly <global> [@label expr over `value`]: a package-level variable written only by its initializer
+			fs := strings.Fields(rest)
+			if len(fs) == 0 {
+				return fmt.Errorf("%s: readonly wants a variable name", where)
+			}
+			ro := &ReadonlyGlobal{Name: pkgKey + "." + fs[0], Where: where}
+			if len(fs) > 1 {
+				c, err := parseClause(strings.TrimSpace(rest[len(fs[0]):]), where)
+				if err != nil {
+					return err
+				}
+				ro.Inv = c
+			}
+			if e.readonly == nil {
+				e.readonly = map[string]*ReadonlyGlobal{}
+			}
+			e.readonly[ro.Name] = ro
+			cur = nil
+		case "ghost":
+			// ghost $name(keytype) valtype
+			m := ghostRe.FindStringSubmatch(rest)
+			if m == nil {
+				return fmt.Errorf("%s: malformed ghost declaration %q", where, rest)
+			}
+			if e.ghosts == nil {
+				e.ghosts = map[string]*GhostDecl{}
+			}
+			e.ghosts[m[1]] = &GhostDecl{Name: m[1], KeyType: m[2], ValType: m[3]}
 			cur = nil
 		case "axiom":
 			c, err := parseClause(rest, where)
@@ -255,6 +310,8 @@ func (e *Engine) readContractFile(path, pkgKey string) error {
 					ls.Invs = append(ls.Invs, c)
 				case "decreases":
 					ls.Decreases = c
+				case "body":
+					ls.Body = append(ls.Body, c)
 				default:
 					return fmt.Errorf("%s: unknown loop clause %q", where, fields[2])
 				}
@@ -297,6 +354,21 @@ func (e *Engine) readContractFile(path, pkgKey string) error {
 			case "bounded":
 				k, _ := strconv.Atoi(strings.TrimPrefix(rest, "k="))
 				cur.Bounded = k
+			case "sets":
+				// sets $name(key) := value
+				i := strings.Index(rest, ":=")
+				if i < 0 {
+					return fmt.Errorf("%s: sets wants $name(key) := value", where)
+				}
+				lhs, err := parseSpec(strings.TrimSpace(rest[:i]))
+				if err != nil || lhs.Op != "call" || len(lhs.Args) != 1 {
+					return fmt.Errorf("%s: sets wants $name(key) := value", where)
+				}
+				rhs, err := parseSpec(strings.TrimSpace(rest[i+2:]))
+				if err != nil {
+					return fmt.Errorf("%s: %v", where, err)
+				}
+				cur.Sets = append(cur.Sets, &SetSpec{Name: lhs.Name, Key: lhs.Args[0], Value: rhs})
 			case "emits":
 				// emits <log>(args...)
 				x, err := parseSpec(rest)
@@ -340,6 +412,8 @@ func splitTop(s string) []string {
 	out = append(out, strings.TrimSpace(s[start:]))
 	return out
 }
+
+var ghostRe = regexp.MustCompile(`^(\$[A-Za-z0-9_]+)\s*\(\s*([A-Za-z\.\*\[\]]+)\s*\)\s*([A-Za-z]+)$`)
 
 var specHeadRe = regexp.MustCompile(`^([A-Za-z_][A-Za-z0-9_]*)\s*\(([^)]*)\)\s*([A-Za-z\[\]\*\.]*)\s*(=\s*(.*))?$`)
 
